@@ -85,7 +85,184 @@ def variant_shift(tree):
     return tree
 
 
-VARIANTS = {'rename': variant_rename, 'swap': variant_swap, 'shift': variant_shift, 'yoda': variant_yoda}
+def variant_polarity(tree):
+    """`a if c else b` -> `b if not c else a`;  `len(x) > 0` -> `len(x) != 0`;  `len(x) == 0` -> `len(x) < 1`."""
+    for x in ast.walk(tree):
+        if isinstance(x, ast.IfExp):
+            x.test, x.body, x.orelse = ast.UnaryOp(op=ast.Not(), operand=x.test), x.orelse, x.body
+        if isinstance(x, ast.Compare) and len(x.ops) == 1 and isinstance(x.left, ast.Call) and isinstance(x.left.func, ast.Name) \
+                and x.left.func.id == 'len' and isinstance(x.comparators[0], ast.Constant) and x.comparators[0].value == 0:
+            if isinstance(x.ops[0], ast.Gt):
+                x.ops = [ast.NotEq()]
+            elif isinstance(x.ops[0], ast.Eq):
+                x.ops, x.comparators = [ast.Lt()], [ast.Constant(value=1)]
+    return tree
+
+
+def variant_rettemp(tree):
+    """`return E` -> `result_tmp = E; return result_tmp` in every function that does not already use that name."""
+    for fn in ast.walk(tree):
+        if not isinstance(fn, (ast.FunctionDef, ast.AsyncFunctionDef)):
+            continue
+        if any(isinstance(x, ast.Name) and x.id == 'result_tmp' for x in ast.walk(fn)):
+            continue
+        if any(isinstance(x, (ast.Yield, ast.YieldFrom)) for x in ast.walk(fn)):
+            continue
+        for parent in ast.walk(fn):
+            for fld in ('body', 'orelse', 'finalbody'):
+                blk = getattr(parent, fld, None)
+                if not isinstance(blk, list):
+                    continue
+                i = 0
+                while i < len(blk):
+                    st = blk[i]
+                    if isinstance(st, ast.Return) and st.value is not None and not isinstance(st.value, (ast.Name, ast.Constant)) \
+                            and _owner(fn, st):
+                        blk[i:i + 1] = [ast.Assign(targets=[ast.Name(id='result_tmp', ctx=ast.Store())], value=st.value),
+                                        ast.Return(value=ast.Name(id='result_tmp', ctx=ast.Load()))]
+                        i += 1
+                    i += 1
+    return tree
+
+
+def _owner(fn, st):
+    """st belongs to fn itself (not to a nested function)."""
+    def rec(n):
+        for c in ast.iter_child_nodes(n):
+            if c is st:
+                return True
+            if isinstance(c, (ast.FunctionDef, ast.AsyncFunctionDef, ast.Lambda, ast.ClassDef)):
+                continue
+            if rec(c):
+                return True
+        return False
+    return rec(fn)
+
+
+def variant_privparam(tree):
+    """parameters of private functions renamed (`p` -> `p_arg`) where no call in the module passes them by keyword."""
+    kw_used = {k.arg for c in ast.walk(tree) if isinstance(c, ast.Call) for k in c.keywords if k.arg}
+    for fn in ast.walk(tree):
+        if not isinstance(fn, (ast.FunctionDef, ast.AsyncFunctionDef)) or not fn.name.startswith('_') or fn.name.startswith('__'):
+            continue
+        if any(isinstance(d, ast.Attribute) and d.attr == 'setter' for d in fn.decorator_list):
+            continue
+        a = fn.args
+        names = {x.arg for x in a.posonlyargs + a.args if x.arg not in ('self', 'cls') and x.arg not in kw_used}
+        if any(isinstance(n, (ast.FunctionDef, ast.Lambda, ast.ClassDef)) and n is not fn for n in ast.walk(fn)):
+            continue
+        if not names:
+            continue
+        for x in ast.walk(fn):
+            if isinstance(x, ast.Name) and x.id in names:
+                x.id += '_arg'
+            elif isinstance(x, ast.arg) and x.arg in names:
+                x.arg += '_arg'
+    return tree
+
+
+def _ends_flow(blk):
+    return bool(blk) and isinstance(blk[-1], (ast.Return, ast.Raise, ast.Continue, ast.Break))
+
+
+def variant_elsify(tree):
+    """`if c: ...; return X` followed by the rest of the block -> the rest moves into `else:`."""
+    for parent in ast.walk(tree):
+        for fld in ('body', 'orelse', 'finalbody'):
+            blk = getattr(parent, fld, None)
+            if not isinstance(blk, list) or isinstance(parent, (ast.ClassDef, ast.Module)):
+                continue
+            for i, st in enumerate(blk):
+                if isinstance(st, ast.If) and not st.orelse and _ends_flow(st.body) and i + 1 < len(blk):
+                    st.orelse = blk[i + 1:]
+                    del blk[i + 1:]
+                    break
+    return tree
+
+
+def variant_unelse(tree):
+    """`if c: ...; return X  else: rest` -> the else body is dedented after the if."""
+    for parent in ast.walk(tree):
+        for fld in ('body', 'orelse', 'finalbody'):
+            blk = getattr(parent, fld, None)
+            if not isinstance(blk, list):
+                continue
+            i = 0
+            while i < len(blk):
+                st = blk[i]
+                if isinstance(st, ast.If) and st.orelse and _ends_flow(st.body) \
+                        and not (len(st.orelse) == 1 and isinstance(st.orelse[0], ast.If)):
+                    rest = st.orelse
+                    st.orelse = []
+                    blk[i + 1:i + 1] = rest
+                i += 1
+    return tree
+
+
+def variant_comp2loop(tree):
+    """`x = [E for a in B]` (single generator, no filter) -> `x = []; for a in B: x.append(E)`."""
+    for parent in ast.walk(tree):
+        for fld in ('body', 'orelse', 'finalbody'):
+            blk = getattr(parent, fld, None)
+            if not isinstance(blk, list):
+                continue
+            i = 0
+            while i < len(blk):
+                st = blk[i]
+                if isinstance(st, ast.Assign) and len(st.targets) == 1 and isinstance(st.targets[0], ast.Name) \
+                        and isinstance(st.value, ast.ListComp) and len(st.value.generators) == 1 \
+                        and not st.value.generators[0].ifs and not st.value.generators[0].is_async:
+                    x = st.targets[0].id
+                    g = st.value.generators[0]
+                    if not any(isinstance(n, ast.Name) and n.id == x for n in ast.walk(st.value)):
+                        loop = ast.For(target=g.target, iter=g.iter, orelse=[], body=[ast.Expr(value=ast.Call(
+                            func=ast.Attribute(value=ast.Name(id=x, ctx=ast.Load()), attr='append', ctx=ast.Load()),
+                            args=[st.value.elt], keywords=[]))])
+                        for n in ast.walk(loop.target):
+                            if hasattr(n, 'ctx'):
+                                n.ctx = ast.Store()
+                        blk[i:i + 1] = [ast.Assign(targets=[ast.Name(id=x, ctx=ast.Store())], value=ast.List(elts=[], ctx=ast.Load())), loop]
+                        i += 1
+                i += 1
+    return tree
+
+
+def variant_kwstyle(tree):
+    """calls of functions defined in the same module (`f(a, b)`, `self.m(a)`, `cls(a)`) pass every positional argument by keyword."""
+    from sa import canon
+    sigs = {k: v[0] for k, v in canon.signatures(tree).items() if len(v) == 1}
+    owner = {}
+
+    def rec(node, cls):
+        for c in ast.iter_child_nodes(node):
+            if isinstance(c, ast.ClassDef):
+                rec(c, c.name)
+            else:
+                if isinstance(c, ast.Call):
+                    owner[id(c)] = cls
+                rec(c, cls)
+    rec(tree, None)
+    for c in ast.walk(tree):
+        if not isinstance(c, ast.Call) or not c.args or any(isinstance(a, ast.Starred) for a in c.args) \
+                or any(k.arg is None for k in c.keywords):
+            continue
+        f = c.func
+        name = None
+        if isinstance(f, ast.Name):
+            name = owner.get(id(c)) if f.id == 'cls' else f.id
+        elif isinstance(f, ast.Attribute) and isinstance(f.value, ast.Name) and f.value.id == 'self':
+            name = f.attr
+        sg = sigs.get(name)
+        if not sg or sg['var'] or len(c.args) > len(sg['pos']):
+            continue
+        c.keywords = [ast.keyword(arg=p_, value=a) for p_, a in zip(sg['pos'], c.args)] + c.keywords
+        c.args = []
+    return tree
+
+
+VARIANTS = {'elsify': variant_elsify, 'unelse': variant_unelse, 'comp2loop': variant_comp2loop, 'kwstyle': variant_kwstyle,
+            'rename': variant_rename, 'swap': variant_swap, 'shift': variant_shift, 'yoda': variant_yoda,
+            'polarity': variant_polarity, 'rettemp': variant_rettemp, 'privparam': variant_privparam}
 
 
 def build(variant):
